@@ -48,7 +48,7 @@ def write(pid: str, level: str, tier: str, master: int, total: dict, known_hits:
     faults["F1_interleaving_decisions"] = c.get("decisions", 0)
     probes = {k: v for k, v in sorted(c.items())
               if not k.startswith(FAULT_KEYS) and not k.startswith(("op:", "err:", "prog:", "cfg:"))}
-    zero = sorted(k for k, v in probes.items() if v == 0)
+    zero = sorted(k for k, v in probes.items() if v == 0 and not k.startswith(("determinism_", "discarded_")))
     runs = total["runs"]
     wall = max(total["wall_s"], 1e-9)
     cov = {
